@@ -10,6 +10,11 @@ CFG64 = {
     "64": dict(bases=[1 * B44, 2 * B44], size=1 << 32, committed=(1 << 20) - 8192, window=1 << 17, define="verif_cfg64", ptr=8),
 }
 CFG_XL = dict(CFG, **CFG64)
+# verif32 whose same-sandbox test is built on RLBox's finder (3-parameter impl_is_in_same_sandbox), with exactly ONE
+# sandbox alive: who owns an address is decided by RLBox's list of live sandboxes (C03, C05)
+CFG_F = {
+    "3f": dict(bases=[1 * B44, 2 * B44], size=1 << 32, committed=(1 << 20) - 8192, window=1 << 17, define="verif_cfg32f", ptr=4),
+}
 APP_BASE = 5 * B44
 APP_SIZE = 1 << 17
 IDX_KINDS = ["char", "schar", "uchar", "short", "ushort", "int", "uint", "long", "ulong", "llong", "ullong"]
@@ -33,7 +38,7 @@ def drivers(part, ops, cfgs=None):
     out = []
     for cfg, c in (cfgs or CFG).items():
         out.append(dict(name="ptr_%s_%s" % (part.lower(), cfg), src="ptr.cpp",
-                        defines=["VERIF_CFG=" + c["define"], "PART_" + part],
+                        defines=["VERIF_CFG=" + c["define"], "PART_" + part] + (["PTR_SINGLE"] if cfg == "3f" else []),
                         ops=[o + cfg for o in ops]))
     return out
 
